@@ -125,7 +125,7 @@ def replay_behaviour(b, rng):
     return None
 
 
-def random_case(rng, big=True):
+def random_case(rng, big=True, permute=None):
     # half of the cases are rich in internal samples (nested sample ancestors), with distinct times
     pis = rng.choice([0.15, 0.15, 0.6, 0.9])
     mt = rng.choice([3, 3, 8])
@@ -133,6 +133,8 @@ def random_case(rng, big=True):
         a = gen.random_abstract(rng, N=rng.randint(2, 8), K=rng.randint(1, 6), max_edges=14, p_internal_sample=pis, max_time=mt)
     else:
         a = gen.random_abstract(rng, N=rng.randint(2, 5), K=rng.randint(1, 3), max_edges=5, nsites=2, nmuts=1, p_internal_sample=pis, max_time=mt)
+    if permute is not None:      # node ids in no particular order
+        a = gen.permute_nodes(a, random.Random(permute))
     samples = [u for u in range(len(a["time"])) if a["flags"][u]]
     th = rng.choice([1, 1, 2, 3])
     r = rng.random()
@@ -228,7 +230,7 @@ def run():
         raise common.MachineryError("no behaviours from Sim_TreeCursor")
     # (3) code -> spec
     n = 400 if QUICK else 6000
-    cases = [random_case(rng, big=(i % 3 != 0)) for i in range(n)] + [gap_case(rng) for _ in range(n // 3)]
+    cases = [random_case(rng, big=(i % 3 != 0), permute=(SEED * 1000003 + i if i % 4 == 1 else None)) for i in range(n)] + [gap_case(rng) for _ in range(n // 3)]
     # binding self-test: corrupt one recorded field in copies of accepted-looking traces;
     # every corrupted trace must be rejected, otherwise the trace spec is vacuous
     import copy
